@@ -58,6 +58,12 @@ Min(a, b) == IF a < b THEN a ELSE b
 Max(a, b) == IF a > b THEN a ELSE b
 MaxPos == 2 * (IF w.nc = 0 THEN 0 ELSE CHOOSE m \in {w.nA[c] : c \in Cnrs} : \A c \in Cnrs : w.nA[c] <= m) + 1
 
+(* Where a foreign cursor key (of the removed container fromBkt) may fall among the keys of the bucket it
+   leaks to = the first bucket after fromBkt whose container still exists: before key 1, or right after key a. *)
+LeakTarget == LET cs == {c \in Cnrs : c > fromBkt /\ c \notin gone}
+              IN IF cs = {} THEN 0 ELSE CHOOSE c \in cs : \A d \in cs : c <= d
+LeakPos == IF LeakTarget = 0 THEN {0} ELSE {2 * a : a \in 0..w.nA[LeakTarget]}
+
 InitWorld(ww) ==
   /\ w = ww
   /\ ver = ww.ver0
@@ -92,13 +98,14 @@ RECURSIVE AssocWalk(_, _, _, _, _)
 AssocWalk(c, rem, after, ai, ia) ==
   IF c > w.nc THEN [name |-> 0, after |-> 0, ai |-> ai, ia |-> ia]
   ELSE IF c \in gone THEN AssocWalk(c + 1, rem, after, ai, ia)          \* skip; 'after' is what the caller decided
-  ELSE LET cand == OldAfter(c, ai, after)
+  ELSE LET cand == TLCEval(OldAfter(c, ai, after))   \* TLCEval: evaluate once (thousands of keys in recorded runs)
            k == Min(rem, Len(cand))
-           batch == {cand[i] : i \in 1..k}
-           Mig(f) == [a \in 1..w.nA[c] |-> IF a \in batch THEN (f[a] \ {"old"}) \cup {"new"} ELSE f[a]]
-           ai2 == [ai EXCEPT ![c] = Mig(@)]
-           ia2 == [ia EXCEPT ![c] = Mig(@)]
-       IN IF k = rem THEN [name |-> c, after |-> 2 * cand[k], ai |-> ai2, ia |-> ia2]   \* scanned == rem: break
+           last == IF k = 0 THEN 0 ELSE cand[k]
+           InBatch(a) == a <= last /\ 2 * a > after /\ "old" \in ai[c][a]       \* the first k candidates
+           Mig(f) == [a \in 1..w.nA[c] |-> IF InBatch(a) THEN (f[a] \ {"old"}) \cup {"new"} ELSE f[a]]
+           ai2 == TLCEval([ai EXCEPT ![c] = Mig(@)])
+           ia2 == TLCEval([ia EXCEPT ![c] = Mig(@)])
+       IN IF k = rem THEN [name |-> c, after |-> 2 * last, ai |-> ai2, ia |-> ia2]      \* scanned == rem: break
           ELSE AssocWalk(c + 1, rem - k, 0, ai2, ia2)                                  \* nextKey = nil
 
 -----------------------------------------------------------------------------
@@ -132,12 +139,13 @@ AssocTx(p) ==
   /\ pc = "assoc" /\ ~cancelled
   /\ LET leak == fromBkt # 0 /\ fromBkt \in gone /\ afterObj # 0
          after0 == IF leak THEN (IF BugCursorLeak THEN p ELSE 0) ELSE afterObj
-         r == AssocWalk(IF fromBkt = 0 THEN 1 ELSE fromBkt, w.budget, after0, aAI, aIA)
-     IN /\ p \in (IF leak /\ BugCursorLeak THEN 0..MaxPos ELSE {0})
-        /\ aAI' = r.ai /\ aIA' = r.ia
-        /\ fromBkt' = r.name /\ afterObj' = r.after
-        /\ pc' = IF r.name = 0 THEN "finish" ELSE "assoc"
-        /\ leaked' = (leaked \/ (leak /\ BugCursorLeak))
+     IN /\ p \in (IF leak /\ BugCursorLeak THEN LeakPos ELSE {0})
+        /\ \E r \in {AssocWalk(IF fromBkt = 0 THEN 1 ELSE fromBkt, w.budget, after0, aAI, aIA)} :   \* (evaluated once)
+             /\ aAI' = r.ai /\ aIA' = r.ia
+             /\ fromBkt' = r.name /\ afterObj' = r.after
+             /\ pc' = IF r.name = 0 THEN "finish" ELSE "assoc"
+        /\ leaked' = (leaked \/ (leak /\ BugCursorLeak /\ LeakTarget # 0 /\     \* keys of the next bucket were skipped
+                                  \E a \in Assocs(LeakTarget) : "old" \in aAI[LeakTarget][a] /\ 2 * a <= p))
   /\ UNCHANGED <<w, ver, oldCtr, drift, hAI, hIA, other, gone, cancelled, ints>>
 
 Finish ==
@@ -175,7 +183,7 @@ Close ==
 Step(e) ==
   CASE e.ev = "Open"   -> Open(e.cc)
     [] e.ev = "Mig9"   -> Mig9
-    [] e.ev = "Tx"     -> (HomoTx \/ \E p \in 0..MaxPos : AssocTx(p))
+    [] e.ev = "Tx"     -> (HomoTx \/ \E p \in LeakPos : AssocTx(p))
     [] e.ev = "Finish" -> Finish
     [] e.ev = "Cancel" -> Cancel
     [] e.ev = "Fail"   -> Fail
@@ -184,7 +192,7 @@ Step(e) ==
     [] e.ev = "Close"  -> Close
     [] OTHER           -> FALSE
 
-Progress == Open(FALSE) \/ Mig9 \/ HomoTx \/ (\E p \in 0..MaxPos : AssocTx(p)) \/ Fail \/ Finish
+Progress == Open(FALSE) \/ Mig9 \/ HomoTx \/ (\E p \in LeakPos : AssocTx(p)) \/ Fail \/ Finish
 
 Next ==
   \/ Progress \/ Open(TRUE) \/ Cancel \/ Crash \/ Close
